@@ -1410,6 +1410,14 @@ static int _handle_sm(xmpp_conn_t *const conn,
         goto err_sm;
 
     if (strcmp(name, "enabled") == 0) {
+        if (!conn->sm_state->sm_enabled) {
+            /* we asked to resume a session, not to enable a new one */
+            strophe_error(conn->ctx, "xmpp",
+                          "SM error: server sent <enabled/> but we didn't "
+                          "send <enable/>.");
+            name = NULL;
+            goto err_sm;
+        }
         conn->sm_state->sm_handled_nr = 0;
         resume = xmpp_stanza_get_attribute(stanza, "resume");
         if (resume && (strcasecmp(resume, "true") || strcmp(resume, "1"))) {
